@@ -73,6 +73,21 @@ def step (_ : Unit) (ws : List String) : Unit × String :=
       let (es, _) := parseEntries toks
       let (ps, ab) := copyEntries [] es
       showPaths ps ++ (if ab then " aborted" else " done")
+    | "mget" :: fixed :: dir :: toks =>
+      match unhex dir with
+      | some dir =>
+        let (es, _) := parseEntries toks
+        let (ps, ab) := mget (fixed == "1") dir es
+        showPaths ps ++ (if ab then " aborted" else " done")
+      | none => "bad-op"
+    | ["basename", p] => match unhex p with
+      | some p => hex (basename p)
+      | _ => "bad-op"
+    | ["rlans", fixed, r, cwd, p, t] => match unhex r, unhex cwd, unhex p, unhex t with
+      | some r, some cwd, some p, some t => match readlinkAnswer (fixed == "1") r cwd p t with
+        | some q => hex q
+        | none => "none"
+      | _, _, _, _ => "bad-op"
     | _ => "bad-op"
   ((), r)
 
